@@ -53,7 +53,10 @@ def write_nb(path, nb, r):
 def make_case(gen, r, d, force=None):
     """returns dict(case) describing files and argv; files are (re)created by prepare()"""
     from ..workloads import valid_triple, covering_configs, config_flags
-    cls, b, l, rm, info, waste = valid_triple(gen, cls=r.choice([None, None, "same_line", "del_vs_edit", "both_insert_dissimilar", "random", "same_output"]))
+    want_cls = r.choice([None, None, "same_line", "del_vs_edit", "both_insert_dissimilar", "random", "same_output", "same_size_sides", "same_size_sides"])
+    if force and len(force) > 2:
+        want_cls, force = force[2], force[:2]
+    cls, b, l, rm, info, waste = valid_triple(gen, cls=want_cls)
     if cls is None:
         return None
     placeholder = r.choice(["none", "none", "none", "base_null", "local_null", "remote_null", "both_null", "empty_base", "fifo_base"])
@@ -104,6 +107,11 @@ def prepare(case, d, r):
             if ph == "both_null":
                 ar = fr
         entry = "git-nbmergedriver"
+        # git writes its three temporary files back to back: on a coarse clock they carry one time stamp
+        if case.get("same_mtime", True):
+            for fpath in (fb, fl, fr):
+                if os.path.exists(fpath):
+                    os.utime(fpath, ns=(1_700_000_000_000_000_000, 1_700_000_000_000_000_000))
         argv = case.get("generic_flags", []) + ["merge"] + case["flags"] + [ab, al, ar, "7", "path/in/repo.ipynb"]
         output = al
         with open(al, "rb") as f:
@@ -425,8 +433,9 @@ def real_git(col, gen, r, d):
         if check and p.returncode != 0:
             raise RuntimeError("git %s failed: %s" % (a, p.stderr.decode(errors="replace")[-300:]))
         return p
-    kind = r.choice(["compatible", "conflict", "conflict", "add_add", "random"])
-    cls, b, l, rm, info, waste = valid_triple(gen, cls={"conflict": "same_line", "compatible": "random", "add_add": "both_insert_dissimilar", "random": None}[kind])
+    kind = r.choice(["compatible", "conflict", "conflict", "add_add", "random", "same_size"])
+    cls, b, l, rm, info, waste = valid_triple(gen, cls={"conflict": "same_line", "compatible": "random", "add_add": "both_insert_dissimilar", "random": None,
+                                                        "same_size": "same_size_sides"}[kind])
     if cls is None:
         return
     if kind == "compatible" and len(b["cells"]) >= 2:
@@ -514,7 +523,8 @@ def run_shard(spec):
         gen = NBGen(r, exotic=False)
         # every fourth shard starts with an agreed-deletion case (output removed) and enumerates its faults as well
         force = ("both_null", "out_sentinel") if (k == 0 and spec.get("shard", 0) % 4 == 1) else \
-                (("none", "driver") if (k == 0 and spec.get("shard", 0) % 4 == 3) else None)
+                (("none", "driver") if (k == 0 and spec.get("shard", 0) % 4 == 3) else
+                 (("none", "driver", "same_size_sides") if (k == 0 and spec.get("shard", 0) % 4 == 2) else None))
         case = make_case(gen, r, d, force)
         if case is None:
             continue
